@@ -5,6 +5,10 @@ Proof (T): translate/gen_capi.py regenerates coq/Gen/CApiTable.v from /repo/prim
 table theorems (vm_compute over the regenerated rows) and, from them, the status protocol for
 every row, all argument values and every behaviour of the C++ oracle; the size-query theorems
 are stated over the helper code read from c/internal/internal.h.
+translate/gen_capi_fwd.py regenerates coq/Gen/CApiFwd.v (order and form in which every wrapper
+forwards its parameters); CApi/ForwardingProofs.v + Props/Properties_C20_forwarding.v prove that
+each parameter is forwarded exactly once, in declaration order, through a reviewed conversion
+(engines/c20_fwd.py: search for a failing call when one of these breaks, PRIMITIV_C_BOOL probes).
 Correspondence (C): harness/capi_drv.cc (asan+ubsan build, every probe in a forked child) against
 the extracted model ocaml/capi_driver.ml and against the C++ API as twin."""
 import json
@@ -14,6 +18,7 @@ import subprocess
 import sys
 
 import pv
+from engines import c20_fwd
 
 sys.path.insert(0, os.path.join(pv.ROOT, "translate"))
 
@@ -38,9 +43,12 @@ def translate(bdir):
     """run the translator (T) in a subprocess so that PV_REPO / the build dir are its own"""
     env = dict(os.environ)
     env["PV_CAPI_BUILD"] = bdir
+    fwd = c20_fwd.start_translator(bdir)      # the forwarding table, read concurrently
     p = subprocess.run([sys.executable, os.path.join(pv.ROOT, "translate", "gen_capi.py")], env=env,
                        stdout=subprocess.PIPE, stderr=subprocess.STDOUT, text=True)
     tj = os.path.join(pv.WORK, "gen", "capi_table%s.json" % sfx())
+    okf, outf, fj = c20_fwd.finish_translator(fwd)
+    translate.fwd = (okf, outf, fj)
     return p.returncode == 0, p.stdout, tj
 
 
@@ -238,14 +246,15 @@ def run_impl(ctx, impl, cases, timeout=900):
 def run(ctx):
     # a run on a scratch copy (PV_REPO) regenerates the shared coq/Gen/CApiTable.v from that copy:
     # put the /repo version back afterwards
-    tv = os.path.join(pv.COQ, "Gen", "CApiTable.v")
-    keep = open(tv).read() if (pv.REPO != "/repo" and os.path.exists(tv)) else None
+    tvs = [os.path.join(pv.COQ, "Gen", "CApiTable.v"), c20_fwd.table_v()]
+    keep = {tv: open(tv).read() for tv in tvs if pv.REPO != "/repo" and os.path.exists(tv)}
     try:
         run_(ctx)
     finally:
-        if keep is not None and open(tv).read() != keep:
-            with open(tv, "w") as f:
-                f.write(keep)
+        for tv, old in keep.items():
+            if open(tv).read() != old:
+                with open(tv, "w") as f:
+                    f.write(old)
 
 
 def run_(ctx):
@@ -260,11 +269,20 @@ def run_(ctx):
                                      "witness": "capi translator :: " + tout.strip().splitlines()[-1][:200] if tout.strip() else "capi translator"},
                       False, "translate/gen_capi.py cannot read primitiv/c: %s" % tout.strip()[-600:])
         return
+    okf, outf, fjson = translate.fwd
+    if not okf:
+        ctx.prove()
+        ctx.violation("translator", {"kind": "translator-failure", "output": outf[-3000:],
+                                     "witness": "capi translator :: " + (outf.strip().splitlines()[-1][:200] if outf.strip() else "gen_capi_fwd")},
+                      False, "translate/gen_capi_fwd.py cannot read primitiv/c: %s" % outf.strip()[-600:])
+        return
     table = json.load(open(tjson))
+    fwdjs = json.load(open(fjson))
     fns = {f["name"]: f for f in table["functions"]}
     # ---- proofs over the regenerated table
     proofs_src = open(os.path.join(pv.COQ, "CApi", "CApiProofs.v")).read()
     gen_obl = len(re.findall(r"^Lemma (table_\w+|helper_table_ok|handler_matches)\b", proofs_src, re.M))
+    gen_obl += len(re.findall(r"^Lemma fwd_\w+_b\b", open(os.path.join(pv.COQ, "CApi", "ForwardingProofs.v")).read(), re.M))
     res = ctx.prove(extra_targets=["Extract/ExtractCapi.vo"], gen_obligations=gen_obl)
     ctx.cov["table"] = {
         "wrappers": len(table["functions"]),
@@ -275,6 +293,7 @@ def run_(ctx):
                    for u in sorted({e[1] for f in table["functions"] for e in f["events"]})},
         "helpers": table["helpers"], "thread_local_handler": table["thread_local"],
     }
+    ctx.cov["forwarding_table"] = c20_fwd.table_cov(fwdjs)
     # ---- parts of the source the translator could not read: the theorems fail on their markers;
     #      the dynamic probes below still run and look for a concrete failing call
     unread = {f["name"]: f["unreadable"] for f in table["functions"] if f.get("unreadable")}
@@ -363,13 +382,45 @@ def run_(ctx):
                               "%s: C API and C++ API differ: %s" % (c, out[:400]))
     ctx.cov["twin_results"] = {"same_ok": sum(1 for o in bo if o.startswith("same ok")), "same_err": sum(1 for o in bo if o.startswith("same err")),
                                "different": ndiff}
+    # ---- (e) forwarding: every PRIMITIV_C_BOOL parameter with 0 / 1 / 2 / 0xffffffff (any non-zero value is
+    #          true, c/define.h) and pairwise distinct scalar arguments on every wrapper that has a C++ twin
+    bl = c20_fwd.bool_cases(fwdjs)
+    fc = [c for f in fwdjs["functions"] for c in c20_fwd.aimed_cases(ctx.rng, f, 4 if quick else 40)]
+    fc = [c for c in fc if c not in {b[0] for b in bl}]
+    fo = run_impl(ctx, impl, [b[0] for b in bl] + fc)
+    blo, fo = fo[:len(bl)], fo[len(bl):]
+    fkeep = [(c, o) for c, o in zip(fc, fo) if o != "unknown-wrapper"]
+    dist["bool-boundary-probes"] = len(bl)
+    dist["forwarding-twin-cases"] = len(fkeep)
+    nb = 0
+    for (c, fname, pname, b), out in zip(bl, blo):
+        if not out.startswith("same "):
+            nb += 1
+            if nb <= 3:
+                ctx.violation("bool", {"kind": "bool-boundary", "case": c, "impl": out, "impl_driver": impl, "wrapper": fname, "parameter": pname, "value": b,
+                                       "witness": "capi bool :: %s -> %s" % (c, out[:160])}, out != "unknown-wrapper",
+                              "%s: PRIMITIV_C_BOOL `%s` = %d %s" % (c, pname, b, "has no C++ twin in harness/capi_drv.cc" if out == "unknown-wrapper"
+                                                                  else "does not behave like the C++ call on `%s`: %s" % ("true" if b else "false", out[:300])))
+    nf = 0
+    for c, out in fkeep:
+        if not (out.startswith("same ") or out == "na"):
+            nf += 1
+            if nf <= 3:
+                ctx.violation("fwd-twin", {"kind": "twin-difference", "case": c, "impl": out, "impl_driver": impl,
+                                           "witness": "capi forwarding :: %s -> %s" % (c, out[:160])}, True,
+                              "%s: C API and C++ API differ on pairwise distinct arguments: %s" % (c, out[:400]))
+    ctx.cov["forwarding_probe_results"] = {"bool_same": sum(1 for o in blo if o.startswith("same ")), "bool_different": nb,
+                                           "twin_same_ok": sum(1 for c, o in fkeep if o.startswith("same ok")),
+                                           "twin_same_err": sum(1 for c, o in fkeep if o.startswith("same err")), "twin_different": nf,
+                                           "wrappers_with_twin": len({c.split()[2] for c, o in fkeep if c.startswith("bnd fwd ")} | {b[1] for b, o in zip(bl, blo) if o != "unknown-wrapper"}),
+                                           "bool_values": c20_fwd.BOOL_VALUES}
     seen = ctx.__dict__.setdefault("_distinct", set())
-    for c, o in list(zip([c for (c, _, _) in zc], zo)) + list(zip(bc, bo)):
+    for c, o in list(zip([c for (c, _, _) in zc], zo)) + list(zip(bc, bo)) + list(zip([b[0] for b in bl], blo)) + fkeep:
         if not BAD.match(o) and not o.startswith("DIFF"):
             seen.add(c)
     ctx.cov["distinct_nontrivial"] = len(seen)
-    ctx.cov["evaluations"] = ctx.cov.get("evaluations", 0) + len(zc) + len(bc) + len(sqf)
-    ctx.cov["traces_validated_against_impl"] = ctx.cov.get("traces_validated_against_impl", 0) + len(zo) + len(bo)
+    ctx.cov["evaluations"] = ctx.cov.get("evaluations", 0) + len(zc) + len(bc) + len(sqf) + len(bl) + len(fkeep)
+    ctx.cov["traces_validated_against_impl"] = ctx.cov.get("traces_validated_against_impl", 0) + len(zo) + len(bo) + len(bl) + len(fkeep)
     if not quick:
         # the same NULL / size-query / trace cases on the unsanitized build (what users link against)
         plain = pv.build_harness("plain", "capi_drv", extra="-lprimitiv_c -I" + gen_dir())
@@ -377,20 +428,23 @@ def run_(ctx):
         pv.correspondence(ctx, "capi-sizequery-plain", sq_cases, plain, model, nontrivial=nontriv, functional=True)
         pv.correspondence(ctx, "capi-trace-plain", traces[:1000], plain, model, nontrivial=nontriv, functional=True)
         if res["ok"]:
-            rc, out = pv.sh("timeout 1200 coqchk -silent -o -Q . PV PV.Props.Properties_C20", cwd=pv.COQ, timeout=1300)
+            rc, out = pv.sh("timeout 1200 coqchk -silent -o -Q . PV PV.Props.Properties_C20 PV.Props.Properties_C20_forwarding", cwd=pv.COQ, timeout=1300)
             okchk = rc == 0 and "Axioms: <none>" in out
-            ctx.cov["coqchk"] = {"cmd": "coqchk -silent -o -Q . PV PV.Props.Properties_C20", "rc": rc,
+            ctx.cov["coqchk"] = {"cmd": "coqchk -silent -o -Q . PV PV.Props.Properties_C20 PV.Props.Properties_C20_forwarding", "rc": rc,
                                  "axioms": "none" if okchk else out[-600:]}
             if not okchk:
-                ctx.violation("coqchk", {"kind": "proof-obligation", "no_longer_checks": ["coqchk PV.Props.Properties_C20"],
-                                         "build_log_tail": out[-3000:]}, False, "coqchk rejects Properties_C20.vo or reports axioms")
+                ctx.violation("coqchk", {"kind": "proof-obligation", "no_longer_checks": ["coqchk PV.Props.Properties_C20 PV.Props.Properties_C20_forwarding"],
+                                         "build_log_tail": out[-3000:]}, False, "coqchk rejects Properties_C20.vo / Properties_C20_forwarding.vo or reports axioms")
     # ---- a broken obligation: build the concrete failing call from the offending rows
     if not res["ok"]:
         found = search_failing_call(ctx, table, impl, model)
+        off = c20_fwd.offenders()
+        if off:
+            found = c20_fwd.search(ctx, fwdjs, off, lambda cs: run_impl(ctx, impl, cs), impl, BAD, 24 if quick else 200) or found
         if not found and not any(fi for (_, fi, _) in ctx.violations):
             rc, dg = pv.run_lines(model, ["diag " + f["name"] for f in table["functions"]])
             rows = {f["name"]: d for f, d in zip(table["functions"], dg) if d != "-"}
-            ctx.proof_broken(extra={"offending_rows": rows, "helpers": table["helpers"], "translator_unrecognised": {"wrappers": unread, "helpers": unrec}})
+            ctx.proof_broken(extra={"offending_rows": rows, "forwarding_offenders": off, "helpers": table["helpers"], "translator_unrecognised": {"wrappers": unread, "helpers": unrec}})
     elif unread or unrec:
         ctx.violation("translator", {"kind": "translator-unrecognised", "wrappers": unread, "helpers": unrec,
                                      "witness": "capi translator :: unrecognised " + ",".join(sorted(list(unread) + list(unrec)))}, False,
@@ -398,6 +452,7 @@ def run_(ctx):
     ctx.cov["rule"] = ("cases = for EVERY exported wrapper of the regenerated table: one call with valid fixture objects, one call per pointer parameter with NULL there, one per pointer-array parameter with a NULL element (expected result = extracted Coq model over the table); "
                        "for every scalar parameter the values 0 / 2^32-1 / -1.0f / NaN / inf (rule: OK or ERROR, never a null complaint or a crash); size-query protocol (NULL buffer; non-NULL buffer with capacity 0, 1, size-1, exact, larger) on every array/string returning function against the executable specification and the C++ twin's data; "
                        "random operation sequences over 1-3 threads (failing calls, succeeding calls, GetMessage variants, ResetStatus) against the extracted handler model; boundary values of shape / optimizer / tensor functions against the C++ twin; "
+                       "every PRIMITIV_C_BOOL parameter with 0 / 1 / 2 / 0xffffffff against the C++ call on `v != 0`, and every wrapper with a C++ twin in the harness (binary functions, slices, picks, concat, conv2d, max_pool2d, random sources, initializers, optimizer constructors, load/save) with pairwise distinct argument values per parameter; "
                        "non-trivial = cases on which the implementation produced a status (not a harness failure)")
     ctx.cov["input_distribution"] = dist
     ctx.cov["variant"] = "asan (AddressSanitizer + UBSan, -fno-sanitize-recover=all); every probe in a forked child"
@@ -410,7 +465,8 @@ def run_(ctx):
         "libstdc++: std::string(nullptr) throws std::logic_error (NULL element of a const char** array)",
         "c/devices/cuda and c/devices/opencl are not part of the build and outside the claim",
         "the array length arguments are not larger than the arrays passed; *size is not larger than the buffer passed",
-        "equality of the EFFECT and the returned data with the C++ call on success is not a theorem (the C++ call is the oracle): it is covered by the twin comparisons above on the sampled boundary values only",
+        "equality of the EFFECT and the returned data with the C++ call on success: the theorems cover what is decidable on the wrapper's text (each parameter reaches the C++ callee exactly once, in declaration order, through a value-preserving reviewed conversion; reviewed exceptions pinned); that the callee named in the wrapper is the corresponding one, and what it computes, is covered by the twin comparisons above on the sampled values only",
+        "translate/gen_capi_fwd.py (clang 14 JSON AST) reads the order and form of the forwarded parameters correctly; cross-checked in Coq against the table of translate/gen_capi.py (same wrappers, parameter names, written-through parameters) and exercised by the twin probes with pairwise distinct arguments",
     ]
 
 
